@@ -1,1 +1,1680 @@
-//! Property-specific engine extensions for C02 (owned by the C02 check).
+//! Property-specific engine extensions for C02 (owned by the C02 check): sends whose hop fee / CLTV delta
+//! are generated around the forwarder's advertised policy, an operation profile centred on node 1 ("B"),
+//! a bounded settle that also mines, and the forwarding oracle (admission, claim-follows-knowledge,
+//! fail-only-when-safe, ledger).
+//!
+//! The oracle is a function of the recorded history (wire messages, events, persistence calls, mined
+//! transactions), of an independent BOLT-2 model instance driven by the same wire messages, and of public
+//! API results (`list_channels`, `get_claimable_balances`). It never reads LDK-internal state.
+
+use crate::model::*;
+use crate::ops::*;
+use crate::oracle_commit::{merged_since, M};
+use crate::rec::*;
+use crate::sim::*;
+use bitcoin::hashes::{sha256, Hash};
+use bitcoin::{OutPoint, Transaction, Txid};
+use lightning::chain::channelmonitor::{Balance, ANTI_REORG_DELAY};
+use lightning::events::Event;
+use lightning::ln::channelmanager::PaymentId;
+use lightning::ln::functional_test_utils::*;
+use lightning::ln::outbound_payment::RecipientOnionFields;
+use lightning::ln::types::ChannelId;
+use lightning::routing::router::{Path, PaymentParameters, Route, RouteHop, RouteParameters};
+use lightning::sign::SpendableOutputDescriptor;
+use lightning::types::features::{ChannelFeatures, NodeFeatures};
+use proptest::prelude::*;
+use serde::{Deserialize, Serialize};
+use std::collections::{BTreeMap, BTreeSet};
+use vcore::{pick, CaseResult, Failure};
+
+/// The forwarding node under test.
+pub const B: usize = 1;
+/// `chain::channelmonitor::LATENCY_GRACE_PERIOD_BLOCKS` (crate-private there): an HTLC is not forwarded
+/// when its outgoing expiry is within this many blocks of the next block height.
+pub const LATENCY_GRACE_PERIOD_BLOCKS: u32 = 3;
+
+// -------------------------------------------------------------------------------------------------
+// sends around B's policy
+// -------------------------------------------------------------------------------------------------
+
+/// Routes through B: (sender, channel indices).
+pub fn fwd_routes(t: Topology) -> Vec<(usize, Vec<usize>)> {
+	match t {
+		Topology::Line4 => vec![(0, vec![0, 1, 2]), (3, vec![2, 1, 0]), (0, vec![0, 1]), (2, vec![1, 0])],
+		Topology::Line3Parallel => vec![(0, vec![0, 1]), (0, vec![0, 2]), (2, vec![1, 0]), (2, vec![2, 0])],
+		_ => vec![(0, vec![0, 1]), (2, vec![1, 0])],
+	}
+}
+
+#[derive(Clone, Debug, Serialize, Deserialize)]
+pub enum FwdAmt {
+	/// one of the generic classes, resolved against the sender's first channel (halved so fees fit)
+	Base(Amt),
+	/// the amount B has to forward is the next hop's announced `htlc_minimum_msat` + d
+	DownMin(i8),
+	/// the amount B has to forward is B's current `next_outbound_htlc_limit_msat` on the outgoing channel + d
+	DownLimit(i8),
+}
+
+#[derive(Clone, Debug, Serialize, Deserialize)]
+pub struct FwdSend {
+	pub route: u16,
+	pub amt: FwdAmt,
+	/// msat added to the fee B's policy asks for
+	pub fee_adj: i8,
+	/// blocks added to the CLTV delta B's policy asks for
+	pub delta_adj: i8,
+	/// CLTV delta of the final hop (the recipient's share)
+	pub final_delta: u16,
+}
+
+pub fn fwd_send_strategy() -> impl Strategy<Value = FwdSend> + Clone {
+	(
+		any::<u16>(),
+		prop_oneof![
+			6 => amt_strategy().prop_map(FwdAmt::Base),
+			1 => (-1i8..=1).prop_map(FwdAmt::DownMin),
+			1 => (-1i8..=1).prop_map(FwdAmt::DownLimit),
+		],
+		prop_oneof![5 => Just(0i8), 2 => Just(-1i8), 2 => Just(1i8)],
+		prop_oneof![5 => Just(0i8), 2 => Just(-1i8), 2 => Just(1i8)],
+		// mostly the usual final delta; sometimes around the forwarder's "outgoing expiry too soon" edge
+		// (next height + LATENCY_GRACE_PERIOD_BLOCKS), sometimes around the recipient's minimum
+		prop_oneof![10 => Just(TEST_FINAL_CLTV as u16), 3 => 1u16..=7, 1 => 40u16..=46, 1 => 60u16..120],
+	)
+		.prop_map(|(route, amt, fee_adj, delta_adj, final_delta)| FwdSend { route, amt, fee_adj, delta_adj, final_delta })
+}
+
+/// `htlc_minimum_msat` the peer of `node` on `chan` announced for HTLCs it receives.
+pub fn peer_htlc_minimum(sim: &Sim, chan: usize, node: usize) -> u64 {
+	let c = &sim.chans[chan];
+	if c.a == node {
+		c.accept.common_fields.htlc_minimum_msat
+	} else {
+		c.open.common_fields.htlc_minimum_msat
+	}
+}
+
+/// `max_htlc_value_in_flight_msat` the peer of `node` on `chan` announced.
+pub fn peer_max_in_flight(sim: &Sim, chan: usize, node: usize) -> u64 {
+	let c = &sim.chans[chan];
+	if c.a == node {
+		c.accept.common_fields.max_htlc_value_in_flight_msat
+	} else {
+		c.open.common_fields.max_htlc_value_in_flight_msat
+	}
+}
+
+impl Sim {
+	/// Like `try_send`, but the hop that pays B carries B's policy fee + `fee_adj` msat and B's CLTV delta +
+	/// `delta_adj` blocks, and the final hop's delta is `final_delta`. Returns the payment index.
+	pub fn c02_send(&mut self, topo: Topology, s: &FwdSend) -> Option<usize> {
+		let routes = fwd_routes(topo);
+		let (from, chans) = routes[pick(s.route, routes.len())].clone();
+		let mut nodes = vec![from];
+		let mut cur = from;
+		for ci in chans.iter() {
+			let c = &self.chans[*ci];
+			let next = if c.a == cur { c.b } else if c.b == cur { c.a } else { return None };
+			nodes.push(next);
+			cur = next;
+		}
+		let bpos = (1..nodes.len() - 1).find(|i| nodes[*i] == B)?;
+		let out_chan = chans[bpos];
+		let last = chans.len() - 1;
+		let amt = match &s.amt {
+			FwdAmt::Base(a) => (resolve_amount(self, from, chans[0], a)? / 2).max(1),
+			FwdAmt::DownMin(d) => (peer_htlc_minimum(self, out_chan, B) as i64 + *d as i64).max(1) as u64,
+			FwdAmt::DownLimit(d) => {
+				let det = self.chan_details(B, out_chan)?;
+				(det.next_outbound_htlc_limit_msat as i64 + *d as i64).max(1) as u64
+			},
+		};
+		if self.pays.len() >= 60 || self.chan_details(from, chans[0]).map(|d| !d.is_usable).unwrap_or(true) {
+			return None;
+		}
+		// hop i's fee_msat pays node i+1 for forwarding over channel i+1; the last hop carries the amount
+		let mut amounts = vec![0u64; chans.len()];
+		let mut deltas = vec![0u32; chans.len()];
+		amounts[last] = amt;
+		deltas[last] = s.final_delta as u32;
+		let mut carried = amt;
+		for i in (0..last).rev() {
+			let fwd = nodes[i + 1];
+			let cfg = self.chan_details(fwd, chans[i + 1])?.config?;
+			let mut fee = cfg.forwarding_fee_base_msat as u64 + carried * cfg.forwarding_fee_proportional_millionths as u64 / 1_000_000;
+			let mut delta = cfg.cltv_expiry_delta as u32;
+			if fwd == B {
+				fee = (fee as i64 + s.fee_adj as i64).max(0) as u64;
+				delta = (delta as i64 + s.delta_adj as i64).max(0) as u32;
+			}
+			amounts[i] = fee;
+			deltas[i] = delta;
+			carried += fee;
+		}
+		let mut hops = vec![];
+		for (i, ci) in chans.iter().enumerate() {
+			hops.push(RouteHop {
+				pubkey: self.w.node_id(nodes[i + 1]),
+				node_features: NodeFeatures::empty(),
+				short_channel_id: self.chans[*ci].scid,
+				channel_features: ChannelFeatures::empty(),
+				fee_msat: amounts[i],
+				cltv_expiry_delta: deltas[i],
+				maybe_announced_channel: true,
+			});
+		}
+		let to = *nodes.last().unwrap();
+		let mut route_params = RouteParameters::from_payment_params_and_value(PaymentParameters::from_node_id(self.w.node_id(to), s.final_delta as u32), amt);
+		route_params.max_total_routing_fee_msat = None;
+		let route = Route { paths: vec![Path { hops, blinded_tail: None }], route_params };
+		let (preimage, hash, secret) = get_payment_preimage_hash(&self.w.nodes[to], None, None);
+		let idn = self.next_payment_id;
+		self.next_payment_id += 1;
+		let mut idb = [0u8; 32];
+		idb[..8].copy_from_slice(&idn.to_be_bytes());
+		let id = PaymentId(idb);
+		let res = self.w.nodes[from].node.send_payment_with_route(route, hash, RecipientOnionFields::secret_only(secret, amt), id);
+		let ok = res.is_ok();
+		self.rec(SEvent::Api {
+			node: from,
+			what: format!("c02 send pay#{} amt={} chans={:?} fee_adj={} delta_adj={} final_delta={}", self.pays.len(), amt, chans, s.fee_adj, s.delta_adj, s.final_delta),
+			ok,
+			detail: format!("{:?}", res),
+		});
+		self.pays.push(PayInfo {
+			idx: self.pays.len(),
+			from,
+			to,
+			path_nodes: nodes,
+			path_chans: chans.to_vec(),
+			amt_msat: amt,
+			cltv_expiry: self.chain.height() + 1 + s.final_delta as u32,
+			hash,
+			preimage,
+			secret,
+			id,
+			state: if ok { PayState::Sent } else { PayState::Refused },
+			claimable_seen: false,
+			claimed_event: false,
+			sent_event: false,
+			failed_event: false,
+		});
+		self.w.nodes[from].chain_monitor.added_monitors.lock().unwrap().clear();
+		self.drain(from);
+		Some(self.pays.len() - 1)
+	}
+
+	/// Deliver the head of one directed link. When an `update_fulfill_htlc` is about to reach B, a marker
+	/// records whether B still has that channel (a fulfil for a closed channel teaches B nothing: the peer
+	/// has to claim on chain instead).
+	pub fn c02_deliver1(&mut self, f: usize, t: usize) -> bool {
+		if t == B && self.is_connected(f, t) {
+			if let Some(Wire::Fulfill(m)) = self.links.get(&(f, t)).and_then(|q| q.front()) {
+				let cid = m.channel_id;
+				let open = self.w.nodes[B].node.list_channels().iter().any(|c| c.channel_id == cid);
+				self.rec(SEvent::Api { node: B, what: "c02-fulfil-arrives".into(), ok: open, detail: String::new() });
+			}
+		}
+		// Two LDK nodes that both consider a channel closed answer each other's bogus channel_reestablish
+		// (commitment numbers 0/0, sent "to force the peer to close") with another one, forever. The transport
+		// cuts that exchange: such a message for a channel neither end has any more is dropped.
+		if let Some(Wire::Reestablish(m)) = self.links.get(&(f, t)).and_then(|q| q.front()) {
+			if m.next_local_commitment_number == 0 && m.next_remote_commitment_number == 0 && self.is_connected(f, t) {
+				let cid = m.channel_id;
+				let has = |n: usize| self.w.nodes[n].node.list_channels().iter().any(|c| c.channel_id == cid);
+				if !has(f) && !has(t) {
+					let wire = self.links.get_mut(&(f, t)).unwrap().pop_front().unwrap();
+					self.rec(SEvent::Dropped { from: f, to: t, wire });
+					return true;
+				}
+			}
+		}
+		self.deliver(f, t, 1) > 0
+	}
+
+	fn c02_live_links(&self) -> Vec<(usize, usize)> {
+		self.links.iter().filter(|(k, q)| !q.is_empty() && self.is_connected(k.0, k.1)).map(|(k, _)| *k).collect()
+	}
+
+	fn c02_flush_deferred(&mut self, deferred: bool) -> bool {
+		if !deferred {
+			return false;
+		}
+		let mut any = false;
+		for i in 0..self.w.n {
+			let nd = &self.w.nodes[i];
+			let cnt = nd.chain_monitor.pending_operation_count();
+			if cnt > 0 {
+				nd.chain_monitor.chain_monitor.flush(cnt, &nd.logger);
+				any = true;
+			}
+			self.drain(i);
+		}
+		any
+	}
+
+	/// deliver + forward + process events until nothing moves; disconnections and async state stay as they are
+	pub fn c02_pump(&mut self, deferred: bool) {
+		for _ in 0..60 {
+			let mut progress = self.c02_flush_deferred(deferred);
+			for (f, t) in self.c02_live_links() {
+				if self.c02_deliver1(f, t) {
+					progress = true;
+				}
+			}
+			for i in 0..self.w.n {
+				if self.w.nodes[i].node.needs_pending_htlc_processing() {
+					self.process_forwards(i);
+					progress = true;
+				}
+				if !self.process_events(i).is_empty() {
+					progress = true;
+				}
+			}
+			if !progress {
+				break;
+			}
+		}
+	}
+
+	/// Mine `blocks` blocks the way an uncensored chain does: every block contains everything in the mempool
+	/// that is valid for it (`reverse`: conflicting candidates are tried in reverse arrival order). After each
+	/// block every node handles its events (a live node's event loop; anchor claims need it to be broadcast).
+	pub fn c02_mine(&mut self, blocks: u32, reverse: bool) {
+		for _ in 0..blocks {
+			let mut txs = self.chain.mempool.clone();
+			if reverse {
+				txs.reverse();
+			}
+			let rejected = self.mine_block(txs);
+			// candidates that can never confirm any more (an input is gone for good: no reorgs here) leave the mempool
+			let dead: Vec<Txid> = rejected.iter().filter(|(_, r)| matches!(r, crate::chain::Reject::MissingInput(_) | crate::chain::Reject::AlreadySpent(..))).map(|(t, _)| *t).collect();
+			if !dead.is_empty() {
+				self.chain.mempool.retain(|t| !dead.contains(&t.compute_txid()));
+			}
+			for i in 0..self.w.n {
+				self.process_events(i);
+			}
+		}
+	}
+
+	/// what keeps `c02_chain_work_pending` true (diagnostics)
+	pub fn c02_chain_work_desc(&self) -> String {
+		let mut out = format!("mempool {}", self.chain.mempool.len());
+		for (i, nd) in self.w.nodes.iter().enumerate() {
+			for cid in nd.chain_monitor.chain_monitor.list_monitors() {
+				if let Ok(mon) = nd.chain_monitor.chain_monitor.get_monitor(cid) {
+					for b in mon.get_claimable_balances() {
+						match b {
+							Balance::ClaimableOnChannelClose { .. } | Balance::ClaimableAwaitingConfirmations { .. } => {},
+							other => out.push_str(&format!("; n{} {:?}", i, other)),
+						}
+					}
+				}
+			}
+		}
+		out
+	}
+
+	/// true if some channel of some node has left the off-chain world and is not fully resolved on chain yet
+	pub fn c02_chain_work_pending(&self) -> bool {
+		if !self.chain.mempool.is_empty() {
+			return true;
+		}
+		for nd in self.w.nodes.iter() {
+			for cid in nd.chain_monitor.chain_monitor.list_monitors() {
+				if let Ok(mon) = nd.chain_monitor.chain_monitor.get_monitor(cid) {
+					for b in mon.get_claimable_balances() {
+						match b {
+							Balance::ClaimableOnChannelClose { .. } | Balance::ClaimableAwaitingConfirmations { .. } => {},
+							_ => return true,
+						}
+					}
+				}
+			}
+		}
+		false
+	}
+
+	/// Off-chain part of the settle (like `Sim::settle` but through `c02_deliver1` and with deferred flushes).
+	fn c02_settle_offchain(&mut self, deferred: bool, max_rounds: usize) -> bool {
+		for i in 0..self.w.n {
+			self.w.set_async(i, None, false);
+		}
+		for _ in 0..max_rounds {
+			let mut progress = self.c02_flush_deferred(deferred);
+			for i in 0..self.w.n {
+				if !self.w.pending_updates(i).is_empty() {
+					self.complete_all_updates(i);
+					progress = true;
+				}
+				let chans: Vec<ChannelId> = self.w.persisters[i].state.lock().unwrap().async_chans.iter().cloned().collect();
+				for c in chans {
+					self.w.set_async(i, Some(c), false);
+				}
+			}
+			let n = self.w.n;
+			for a in 0..n {
+				for b in (a + 1)..n {
+					if !self.is_connected(a, b) {
+						self.reconnect(a, b);
+						progress = true;
+					}
+				}
+			}
+			self.drain_all();
+			let keys: Vec<(usize, usize)> = self.links.keys().cloned().collect();
+			for (f, t) in keys {
+				while self.queued(f, t) > 0 && self.is_connected(f, t) {
+					self.c02_deliver1(f, t);
+					progress = true;
+				}
+			}
+			for i in 0..self.w.n {
+				if self.w.nodes[i].node.needs_pending_htlc_processing() {
+					self.process_forwards(i);
+					progress = true;
+				}
+				if !self.process_events(i).is_empty() {
+					progress = true;
+				}
+			}
+			self.drain_all();
+			if !progress && self.total_queued() == 0 {
+				return true;
+			}
+		}
+		false
+	}
+
+	/// Bounded drive to final quiescence: off-chain settle, resolve what the recipients hold (claim / fail
+	/// by `resolutions`), and while anything is unresolved on chain mine one uncensored block at a time
+	/// (up to `max_blocks`), ending `ANTI_REORG_DELAY` blocks after the last on-chain activity.
+	/// Returns (quiescent, blocks mined).
+	pub fn c02_settle(&mut self, deferred: bool, resolutions: &[bool], max_blocks: u32) -> (bool, u32) {
+		let mut mined = 0u32;
+		let mut quiet_blocks = 0u32;
+		let mut any_chain = false;
+		for _ in 0..(max_blocks as usize + 60) {
+			let quiet = self.c02_settle_offchain(deferred, 40);
+			let cands: Vec<usize> = self.pays.iter().filter(|p| p.state == PayState::Claimable).map(|p| p.idx).collect();
+			if !cands.is_empty() {
+				for p in cands {
+					if resolutions.is_empty() || resolutions[p % resolutions.len()] {
+						self.claim(p);
+					} else {
+						self.fail_back(p);
+					}
+				}
+				continue;
+			}
+			if !quiet {
+				return (false, mined);
+			}
+			let pending = self.c02_chain_work_pending();
+			if pending {
+				any_chain = true;
+				quiet_blocks = 0;
+			}
+			if pending || (any_chain && quiet_blocks < ANTI_REORG_DELAY + 1) {
+				if mined >= max_blocks {
+					return (false, mined);
+				}
+				self.c02_mine(1, false);
+				mined += 1;
+				if !pending {
+					quiet_blocks += 1;
+				}
+				continue;
+			}
+			return (true, mined);
+		}
+		(false, mined)
+	}
+}
+
+// -------------------------------------------------------------------------------------------------
+// operations
+// -------------------------------------------------------------------------------------------------
+
+#[derive(Clone, Debug, Serialize, Deserialize)]
+pub enum COp {
+	Fwd(FwdSend),
+	/// send and pump until nothing moves (the recipient usually holds the payment afterwards)
+	FwdReady(FwdSend),
+	/// Claim / FailBack / Events / Forwards / Disconnect / Reconnect / Timer / ForceClose of `ops::Op`
+	Base(Op),
+	Deliver { link: u16, k: u8 },
+	Flush,
+	Pump,
+	/// persistence of one of B's channels answers InProgress from now on (off: only when nothing is in flight)
+	AsyncB { chan: u16, on: bool },
+	CompleteB { which: u16 },
+	CompleteAllB,
+	FlushDeferredB,
+	SnapshotB,
+	/// restart B from its snap-th newest manager snapshot and the durable (or latest written) monitor images
+	RestartB { snap: u16, landed: bool },
+	Mine { blocks: u8, reverse: bool },
+	/// mine until the chain height is the (downstream or upstream) expiry of a forwarded HTLC plus `offset`
+	MineToExpiry { pay: u16, upstream: bool, offset: i8 },
+}
+
+#[derive(Clone, Debug)]
+pub struct CWeights {
+	pub fwd: u32,
+	pub fwd_ready: u32,
+	pub claim: u32,
+	pub fail: u32,
+	pub deliver: u32,
+	pub flush: u32,
+	pub events: u32,
+	pub forwards: u32,
+	pub pump: u32,
+	pub disconnect: u32,
+	pub reconnect: u32,
+	pub timer: u32,
+	pub async_b: u32,
+	pub complete_b: u32,
+	pub snapshot_b: u32,
+	pub restart_b: u32,
+	pub force_close: u32,
+	pub mine: u32,
+	pub mine_to: u32,
+}
+
+pub fn cop_strategy(w: CWeights) -> impl Strategy<Value = COp> + Clone {
+	let mut v: Vec<(u32, BoxedStrategy<COp>)> = vec![
+		(w.fwd, fwd_send_strategy().prop_map(COp::Fwd).boxed()),
+		(w.fwd_ready, fwd_send_strategy().prop_map(COp::FwdReady).boxed()),
+		(w.claim, any::<u16>().prop_map(|pay| COp::Base(Op::Claim { pay })).boxed()),
+		(w.fail, any::<u16>().prop_map(|pay| COp::Base(Op::FailBack { pay })).boxed()),
+		(w.deliver, (any::<u16>(), 1u8..6).prop_map(|(link, k)| COp::Deliver { link, k }).boxed()),
+		(w.flush, Just(COp::Flush).boxed()),
+		(w.events, any::<u16>().prop_map(|node| COp::Base(Op::Events { node })).boxed()),
+		(w.forwards, any::<u16>().prop_map(|node| COp::Base(Op::Forwards { node })).boxed()),
+		(w.pump, Just(COp::Pump).boxed()),
+		(w.disconnect, any::<u16>().prop_map(|pair| COp::Base(Op::Disconnect { pair })).boxed()),
+		(w.reconnect, any::<u16>().prop_map(|pair| COp::Base(Op::Reconnect { pair })).boxed()),
+		(w.timer, any::<u16>().prop_map(|node| COp::Base(Op::Timer { node })).boxed()),
+		(w.async_b, (any::<u16>(), proptest::bool::weighted(0.75)).prop_map(|(chan, on)| COp::AsyncB { chan, on }).boxed()),
+		(w.complete_b, prop_oneof![4 => any::<u16>().prop_map(|which| COp::CompleteB { which }), 2 => Just(COp::CompleteAllB), 1 => Just(COp::FlushDeferredB)].boxed()),
+		(w.snapshot_b, Just(COp::SnapshotB).boxed()),
+		(w.restart_b, (prop_oneof![3 => Just(0u16), 1 => any::<u16>()], any::<bool>()).prop_map(|(snap, landed)| COp::RestartB { snap, landed }).boxed()),
+		(w.force_close, (any::<u16>(), any::<bool>()).prop_map(|(chan, by_funder)| COp::Base(Op::ForceClose { chan, by_funder })).boxed()),
+		(w.mine, (prop_oneof![3 => Just(1u8), 2 => 1u8..8, 1 => 6u8..40], any::<bool>()).prop_map(|(blocks, reverse)| COp::Mine { blocks, reverse }).boxed()),
+		(w.mine_to, (any::<u16>(), any::<bool>(), -8i8..=8).prop_map(|(pay, upstream, offset)| COp::MineToExpiry { pay, upstream, offset }).boxed()),
+	];
+	v.retain(|(w, _)| *w > 0);
+	proptest::strategy::Union::new_weighted(v)
+}
+
+fn b_chans(sim: &Sim) -> Vec<usize> {
+	(0..sim.chans.len()).filter(|c| sim.chans[*c].a == B || sim.chans[*c].b == B).collect()
+}
+
+/// Apply one operation; returns a tag of what happened.
+pub fn apply_c02(sim: &mut Sim, spec: &WorldSpec, op: &COp) -> &'static str {
+	match op {
+		COp::Fwd(s) => match sim.c02_send(spec.topo, s) {
+			None => "send-skipped",
+			Some(i) if sim.pays[i].state == PayState::Refused => "send-refused",
+			Some(_) => "send",
+		},
+		COp::FwdReady(s) => {
+			let r = match sim.c02_send(spec.topo, s) {
+				None => "send-skipped",
+				Some(i) if sim.pays[i].state == PayState::Refused => "send-refused",
+				Some(_) => "send-ready",
+			};
+			sim.c02_pump(spec.deferred);
+			r
+		},
+		COp::Base(o) => match o {
+			Op::Claim { .. } | Op::FailBack { .. } | Op::Events { .. } | Op::Forwards { .. } | Op::Disconnect { .. } | Op::Reconnect { .. } | Op::Timer { .. } | Op::ForceClose { .. } => apply(sim, spec, o),
+			_ => "base-op-not-in-profile",
+		},
+		COp::Deliver { link, k } => {
+			let live = sim.c02_live_links();
+			if live.is_empty() {
+				return "deliver-skipped";
+			}
+			let (f, t) = live[pick(*link, live.len())];
+			for _ in 0..*k {
+				if !sim.c02_deliver1(f, t) {
+					break;
+				}
+			}
+			"deliver"
+		},
+		COp::Flush => {
+			for _ in 0..200 {
+				let live = sim.c02_live_links();
+				if live.is_empty() {
+					break;
+				}
+				for (f, t) in live {
+					sim.c02_deliver1(f, t);
+				}
+			}
+			"flush"
+		},
+		COp::Pump => {
+			sim.c02_pump(spec.deferred);
+			"pump"
+		},
+		COp::AsyncB { chan, on } => {
+			let mine = b_chans(sim);
+			let c = sim.chans[mine[pick(*chan, mine.len())]].id;
+			// documented rule: back to synchronous persistence only after a restart; the harness uses the
+			// allowed subset "only when nothing is in flight for that channel"
+			if !*on && sim.w.pending_updates(B).iter().any(|(pc, _)| *pc == c) {
+				return "async-skipped";
+			}
+			sim.w.set_async(B, Some(c), *on);
+			if *on {
+				"async-on"
+			} else {
+				"async-off"
+			}
+		},
+		COp::CompleteB { which } => {
+			let pend = sim.w.pending_updates(B);
+			if pend.is_empty() {
+				return "complete-skipped";
+			}
+			let (c, id) = pend[pick(*which, pend.len())];
+			sim.w.complete_update(B, c, id);
+			sim.drain(B);
+			"complete"
+		},
+		COp::CompleteAllB => {
+			if sim.w.pending_updates(B).is_empty() {
+				return "complete-skipped";
+			}
+			sim.complete_all_updates(B);
+			"complete-all"
+		},
+		COp::FlushDeferredB => {
+			if !spec.deferred {
+				return "flushdef-skipped";
+			}
+			let nd = &sim.w.nodes[B];
+			let cnt = nd.chain_monitor.pending_operation_count();
+			nd.chain_monitor.chain_monitor.flush(cnt, &nd.logger);
+			sim.drain(B);
+			"flush-deferred"
+		},
+		COp::SnapshotB => {
+			sim.snapshot_manager(B);
+			"snapshot"
+		},
+		COp::RestartB { snap, landed } => match sim.restart(B, *snap, *landed) {
+			Ok(()) => "restart",
+			Err(_) => "restart-failed",
+		},
+		COp::Mine { blocks, reverse } => {
+			sim.c02_mine(*blocks as u32, *reverse);
+			"mine"
+		},
+		COp::MineToExpiry { pay, upstream, offset } => {
+			// expiries of the HTLCs B forwarded so far, read from the recorded wire messages
+			let mut exp: Vec<u32> = vec![];
+			for (_, e) in sim.log.iter() {
+				match e {
+					SEvent::Emit { from, wire: Wire::Add(m), .. } if *from == B && !*upstream => exp.push(m.cltv_expiry),
+					SEvent::Deliver { to, wire: Wire::Add(m), .. } if *to == B && *upstream => exp.push(m.cltv_expiry),
+					_ => {},
+				}
+			}
+			exp.sort();
+			exp.dedup();
+			if exp.is_empty() {
+				return "mineto-skipped";
+			}
+			let target = (exp[pick(*pay, exp.len())] as i64 + *offset as i64).max(0) as u32;
+			let h = sim.chain.height();
+			if target <= h || target - h > 400 {
+				return "mineto-skipped";
+			}
+			sim.c02_mine(target - h, false);
+			"mine-to-expiry"
+		},
+	}
+}
+
+// -------------------------------------------------------------------------------------------------
+// oracle
+// -------------------------------------------------------------------------------------------------
+
+#[derive(Clone, Debug)]
+pub struct Down {
+	pub chan: usize,
+	pub id: u64,
+	pub amt_out: u64,
+	pub cltv_out: u32,
+	pub t_emit: u64,
+	/// the add reached the next hop at least once
+	pub delivered: bool,
+}
+
+#[derive(Clone, Debug)]
+pub struct Pair {
+	pub hash: [u8; 32],
+	pub up_chan: usize,
+	pub up_id: u64,
+	pub amt_in: u64,
+	pub cltv_in: u32,
+	pub t_in: u64,
+	/// B's height when the upstream add arrived / when the first upstream revoke_and_ack after it arrived
+	pub h_in: u32,
+	pub h_commit: Option<u32>,
+	/// B is an intermediate hop of this payment
+	pub is_forward: bool,
+	pub down: Option<Down>,
+	/// step at which B learned the preimage from downstream, and how
+	pub learned: Option<(u64, &'static str)>,
+	pub up_fulfill_emit: Option<u64>,
+	pub up_fulfill_delivered: Option<u64>,
+	pub up_fail_emit: Option<u64>,
+	pub up_claim_onchain: Option<u64>,
+	pub handling_failed_seen: bool,
+	pub forwarded_event: bool,
+	/// disturbances between learning and upstream resolution
+	pub async_pending_at_learn: bool,
+	pub disconnect_in_window: bool,
+	pub restart_in_window: bool,
+	pub restarts_after_in: u32,
+	/// B was restarted from a manager snapshot taken before it sent the downstream add (monitors newer)
+	pub stale_restart: bool,
+}
+
+/// What a signed commitment transaction contains (from the signer record and the model).
+#[derive(Clone, Debug)]
+pub struct CommitRec {
+	pub chan: usize,
+	/// side (0 = funder) whose transaction this is
+	pub broadcaster: usize,
+	/// (payment hash, amount msat, offered by the broadcaster, output index)
+	pub nondust: Vec<([u8; 32], u64, bool, u32)>,
+	pub dust: Vec<ExpHtlc>,
+	pub to_broadcaster_sat: u64,
+	pub to_countersignatory_sat: u64,
+}
+
+#[derive(Default, Clone, Debug)]
+pub struct FwdStats {
+	pub pairs: u64,
+	pub forwarded: u64,
+	pub admission_checks: u64,
+	pub refused_forwards: u64,
+	pub learned_msg: u64,
+	pub learned_chain: u64,
+	pub up_fulfilled_msg: u64,
+	pub up_fulfilled_chain: u64,
+	pub up_failed_after_offchain_removal: u64,
+	pub up_failed_after_onchain: u64,
+	pub fee_events_checked: u64,
+	pub restarts_b: u64,
+	pub chans_onchain: u64,
+	pub dust_forfeits: u64,
+	pub ledger: &'static str,
+	pub fee_edge: [u64; 3],
+	pub delta_edge: [u64; 3],
+	pub disturbed_pairs: u64,
+}
+
+pub struct FwdOracle {
+	cur_h: usize,
+	cur_s: usize,
+	pub pairs: BTreeMap<[u8; 32], Pair>,
+	models: Vec<ChanModel>,
+	/// (chan, side) -> commitment number of a signature not yet sent
+	pending_number: BTreeMap<(usize, usize), (u64, Txid, Vec<([u8; 32], u64, bool, u32)>, u64, u64)>,
+	/// (chan, side) -> for each distinct commitment_signed of that side: how many of the peer's updates it acknowledged
+	acked_at_cs: BTreeMap<(usize, usize), Vec<usize>>,
+	/// revocation secrets that reached B, per channel
+	revokes_at_b: BTreeMap<usize, BTreeSet<[u8; 32]>>,
+	pub commits: BTreeMap<Txid, CommitRec>,
+	/// confirmed transactions: txid -> height
+	confirmed: BTreeMap<Txid, u32>,
+	/// confirmed spends: outpoint -> (spending txid, height)
+	spent: BTreeMap<OutPoint, (Txid, u32)>,
+	b_broadcast: BTreeSet<Txid>,
+	height: u32,
+	b_height: u32,
+	/// B's in-flight monitor updates: (chan id, update id)
+	b_inflight: BTreeSet<(ChannelId, u64)>,
+	fulfil_marker: Option<bool>,
+	/// policy B advertised per channel: (base msat, ppm, cltv delta)
+	policy: Vec<Option<(u64, u64, u32)>>,
+	start_msat: Vec<u64>,
+	start_reported_sat: Vec<Option<u64>>,
+	spendable: BTreeMap<OutPoint, (ChannelId, u64)>,
+	handling_failed: BTreeMap<usize, u64>,
+	pub stats: FwdStats,
+	pub model_error: Option<String>,
+}
+
+fn fail(oracle: &str, detail: String) -> Failure {
+	Failure::new(oracle, detail)
+}
+
+fn side_of(sim: &Sim, chan: usize, node: usize) -> usize {
+	if sim.chans[chan].a == node {
+		0
+	} else {
+		1
+	}
+}
+
+fn chan_of(sim: &Sim, id: &ChannelId) -> Option<usize> {
+	sim.chans.iter().position(|c| c.id == *id)
+}
+
+fn funding_outpoint(sim: &Sim, chan: usize) -> OutPoint {
+	OutPoint { txid: sim.chans[chan].funding_tx.compute_txid(), vout: 0 }
+}
+
+fn witness_has_preimage(tx: &Transaction, hash: &[u8; 32]) -> bool {
+	tx.input.iter().any(|i| i.witness.iter().any(|w| w.len() == 32 && sha256::Hash::hash(w).to_byte_array() == *hash))
+}
+
+fn input_has_preimage(tx: &Transaction, prev: &OutPoint, hash: &[u8; 32]) -> bool {
+	tx.input.iter().any(|i| i.previous_output == *prev && i.witness.iter().any(|w| w.len() == 32 && sha256::Hash::hash(w).to_byte_array() == *hash))
+}
+
+/// balance B's monitor reports for one open channel (sat): `ClaimableOnChannelClose` amount
+fn reported_open_sat(sim: &Sim, ci: usize) -> Option<u64> {
+	let mon = sim.w.nodes[B].chain_monitor.chain_monitor.get_monitor(sim.chans[ci].id).ok()?;
+	let mut sum = None;
+	for b in mon.get_claimable_balances() {
+		if let Balance::ClaimableOnChannelClose { balance_candidates, confirmed_balance_candidate_index, .. } = b {
+			sum = Some(sum.unwrap_or(0) + balance_candidates[confirmed_balance_candidate_index].amount_satoshis);
+		}
+	}
+	sum
+}
+
+impl FwdOracle {
+	/// Must be created right after the channels were opened.
+	pub fn new(sim: &Sim) -> FwdOracle {
+		let mut models = vec![];
+		let mut policy = vec![];
+		let mut start_msat = vec![];
+		for (ci, c) in sim.chans.iter().enumerate() {
+			let ct = c.accept.common_fields.channel_type.clone().or(c.open.common_fields.channel_type.clone());
+			let chan_type = match ct {
+				Some(t) if t.supports_anchor_zero_fee_commitments() => ChanType::ZeroFeeCommitments,
+				Some(t) if t.supports_anchors_zero_fee_htlc_tx() => ChanType::AnchorsZeroFeeHtlc,
+				_ => ChanType::StaticRemoteKey,
+			};
+			models.push(ChanModel::new(Params {
+				value_sat: c.value_sat,
+				funder: 0,
+				init_balance_msat: [c.value_sat * 1000 - c.push_msat, c.push_msat],
+				dust_limit_sat: [c.open.common_fields.dust_limit_satoshis, c.accept.common_fields.dust_limit_satoshis],
+				chan_type,
+				init_feerate: c.open.common_fields.commitment_feerate_sat_per_1000_weight,
+			}));
+			let pol = if c.a == B || c.b == B {
+				sim.chan_details(B, ci).and_then(|d| d.config).map(|cfg| (cfg.forwarding_fee_base_msat as u64, cfg.forwarding_fee_proportional_millionths as u64, cfg.cltv_expiry_delta as u32))
+			} else {
+				None
+			};
+			policy.push(pol);
+			start_msat.push(if c.a == B {
+				c.value_sat * 1000 - c.push_msat
+			} else if c.b == B {
+				c.push_msat
+			} else {
+				0
+			});
+		}
+		// commitments signed during channel establishment carry no HTLCs
+		let mut commits = BTreeMap::new();
+		for (_, e) in hist_since(0) {
+			if let HEvent::SignCounterparty { node, tx, params, .. } = e {
+				if let Some(chan) = params.funding_outpoint.and_then(|fo| sim.chans.iter().position(|c| c.funding_tx.compute_txid() == fo.txid)) {
+					let side = side_of(sim, chan, node);
+					commits.insert(
+						tx.trust().txid(),
+						CommitRec { chan, broadcaster: 1 - side, nondust: vec![], dust: vec![], to_broadcaster_sat: tx.to_broadcaster_value_sat(), to_countersignatory_sat: tx.to_countersignatory_value_sat() },
+					);
+				}
+			}
+		}
+		let h = sim.chain.height();
+		FwdOracle {
+			cur_h: hist_len(),
+			cur_s: sim.log.len(),
+			pairs: BTreeMap::new(),
+			models,
+			pending_number: BTreeMap::new(),
+			acked_at_cs: BTreeMap::new(),
+			revokes_at_b: BTreeMap::new(),
+			commits,
+			confirmed: BTreeMap::new(),
+			spent: BTreeMap::new(),
+			b_broadcast: BTreeSet::new(),
+			height: h,
+			b_height: sim.w.nodes[B].best_block_info().1,
+			b_inflight: BTreeSet::new(),
+			fulfil_marker: None,
+			policy,
+			start_msat,
+			start_reported_sat: (0..sim.chans.len()).map(|ci| reported_open_sat(sim, ci)).collect(),
+			spendable: BTreeMap::new(),
+			handling_failed: BTreeMap::new(),
+			stats: FwdStats::default(),
+			model_error: None,
+		}
+	}
+
+	fn acked_by(m: &ChanModel, acker: usize) -> usize {
+		let j = m.sides[acker].raa_secrets.len();
+		if j == 0 {
+			0
+		} else {
+			m.sides[1 - acker].cs.get(j - 1).map(|c| c.covers).unwrap_or(0)
+		}
+	}
+
+	fn pair_by_up(&mut self, chan: usize, id: u64) -> Option<&mut Pair> {
+		self.pairs.values_mut().find(|p| p.up_chan == chan && p.up_id == id)
+	}
+
+	fn pair_by_down(&mut self, chan: usize, id: u64) -> Option<&mut Pair> {
+		self.pairs.values_mut().find(|p| p.down.as_ref().map(|d| d.chan == chan && d.id == id).unwrap_or(false))
+	}
+
+	/// (c), off-chain branch: the downstream HTLC was removed by the next hop's *failure* and no unrevoked
+	/// commitment of either side contains it any more, as far as B can know (BOLT-2: the next hop's
+	/// update_fail_htlc was covered by its commitment_signed, B acknowledged that with a revoke_and_ack,
+	/// signed a commitment without the HTLC, and the next hop's revoke_and_ack for that commitment reached B).
+	fn down_irrevocably_failed(&self, sim: &Sim, d: &Down) -> bool {
+		let m = &self.models[d.chan];
+		let sb = side_of(sim, d.chan, B);
+		let sc = 1 - sb;
+		let Some(k) = m.sides[sc].updates.iter().position(|u| *u == Upd::Fail { id: d.id }) else { return false };
+		let Some(acked) = self.acked_at_cs.get(&(d.chan, sb)) else { return false };
+		let delivered = self.revokes_at_b.get(&d.chan);
+		for (i, a) in acked.iter().enumerate() {
+			if *a > k {
+				if let (Some(sec), Some(del)) = (m.sides[sc].raa_secrets.get(i), delivered) {
+					if del.contains(sec) {
+						return true;
+					}
+				}
+			}
+		}
+		false
+	}
+
+	/// (c), on-chain branch. Some(true): the downstream channel's confirmed commitment has no output for the
+	/// HTLC and is buried ANTI_REORG_DELAY deep, or the HTLC output was spent without the preimage by a
+	/// transaction buried that deep. Some(false): not (yet). None: cannot tell (unknown commitment).
+	fn down_unclaimable_onchain(&self, sim: &Sim, hash: &[u8; 32], d: &Down) -> Option<bool> {
+		let Some((t, h_t)) = self.spent.get(&funding_outpoint(sim, d.chan)) else { return Some(false) };
+		let rec = self.commits.get(t)?;
+		let sb = side_of(sim, d.chan, B);
+		let offered_by_b = |offered: bool| offered == (rec.broadcaster == sb);
+		match rec.nondust.iter().find(|(h, _, off, _)| h == hash && offered_by_b(*off)) {
+			None => Some(self.height + 1 >= *h_t + ANTI_REORG_DELAY),
+			Some((_, _, _, idx)) => match self.spent.get(&OutPoint { txid: *t, vout: *idx }) {
+				None => Some(false),
+				Some((stx, h_s)) => {
+					let tx = sim.chain.seen.get(stx)?;
+					Some(!input_has_preimage(tx, &OutPoint { txid: *t, vout: *idx }, hash) && self.height + 1 >= *h_s + ANTI_REORG_DELAY)
+				},
+			},
+		}
+	}
+
+	pub fn step(&mut self, sim: &Sim) -> CaseResult {
+		let evs = merged_since(sim, &mut self.cur_h, &mut self.cur_s);
+		for (at, ev) in evs {
+			match ev {
+				M::H(HEvent::SignCounterparty { node, tx, params, .. }) => {
+					let Some(chan) = params.funding_outpoint.and_then(|fo| sim.chans.iter().position(|c| c.funding_tx.compute_txid() == fo.txid)) else { continue };
+					let side = side_of(sim, chan, node);
+					let nd: Vec<([u8; 32], u64, bool, u32)> = tx.nondust_htlcs().iter().map(|h| (h.payment_hash.0, h.amount_msat, h.offered, h.transaction_output_index.unwrap_or(u32::MAX))).collect();
+					self.pending_number.insert((chan, side), (tx.commitment_number(), tx.trust().txid(), nd, tx.to_broadcaster_value_sat(), tx.to_countersignatory_value_sat()));
+				},
+				M::H(HEvent::PersistUpdate { node, chan, update_id: Some(id), in_progress: true, .. }) if node == B => {
+					self.b_inflight.insert((chan, id));
+				},
+				M::H(HEvent::PersistNew { node, chan, update_id, in_progress: true }) if node == B => {
+					self.b_inflight.insert((chan, update_id));
+				},
+				M::H(HEvent::PersistCompleted { node, chan, update_id }) if node == B => {
+					self.b_inflight.remove(&(chan, update_id));
+				},
+				M::S(SEvent::Api { node, what, ok, .. }) if node == B && what == "c02-fulfil-arrives" => {
+					self.fulfil_marker = Some(ok);
+				},
+				M::S(SEvent::Emit { from, to, wire }) => self.on_emit(sim, at, from, to, &wire)?,
+				M::S(SEvent::Deliver { from, to, wire }) => self.on_deliver(sim, at, from, to, &wire)?,
+				M::S(SEvent::Disconnect { a, b }) => {
+					if a == B || b == B {
+						for p in self.pairs.values_mut() {
+							if p.learned.is_some() && p.up_fulfill_delivered.is_none() && p.up_claim_onchain.is_none() {
+								p.disconnect_in_window = true;
+							}
+						}
+					}
+				},
+				M::S(SEvent::Restart { node, ok, snapshot_step, .. }) => {
+					if node == B && ok {
+						self.stats.restarts_b += 1;
+						self.b_inflight.clear();
+						for p in self.pairs.values_mut() {
+							p.restarts_after_in += 1;
+							if p.down.as_ref().map(|d| snapshot_step < d.t_emit).unwrap_or(false) {
+								p.stale_restart = true;
+							}
+							if p.learned.is_some() && p.up_fulfill_delivered.is_none() && p.up_claim_onchain.is_none() {
+								p.restart_in_window = true;
+							}
+						}
+					}
+				},
+				M::S(SEvent::Broadcast { node, tx, .. }) => {
+					if node == B {
+						self.b_broadcast.insert(tx.compute_txid());
+					}
+				},
+				M::S(SEvent::BlockDelivered { node, height }) => {
+					if node == B {
+						self.b_height = height;
+					}
+				},
+				M::S(SEvent::Mined { height, txids }) => {
+					self.height = height;
+					for txid in txids {
+						let Some(tx) = sim.chain.seen.get(&txid) else { continue };
+						self.confirmed.insert(txid, height);
+						for i in tx.input.iter() {
+							self.spent.insert(i.previous_output, (txid, height));
+						}
+						self.on_mined_tx(sim, at, tx, height);
+					}
+				},
+				M::S(SEvent::Ldk { node, ev }) if node == B => self.on_b_event(sim, &ev)?,
+				_ => {},
+			}
+		}
+		Ok(())
+	}
+
+	fn on_mined_tx(&mut self, _sim: &Sim, at: u64, tx: &Transaction, _height: u32) {
+		let txid = tx.compute_txid();
+		// a spend carrying a preimage of a forwarded payment
+		let hashes: Vec<[u8; 32]> = self.pairs.keys().cloned().collect();
+		for h in hashes {
+			if !witness_has_preimage(tx, &h) {
+				continue;
+			}
+			let (down_chan, up_chan) = {
+				let p = &self.pairs[&h];
+				(p.down.as_ref().map(|d| d.chan), p.up_chan)
+			};
+			for i in tx.input.iter() {
+				let parent = i.previous_output.txid;
+				let Some(rec) = self.commits.get(&parent) else { continue };
+				if !input_has_preimage(tx, &i.previous_output, &h) {
+					continue;
+				}
+				if Some(rec.chan) == down_chan {
+					// the next hop claimed the downstream HTLC on chain: B's monitor sees the preimage in this block
+					let inflight = !self.b_inflight.is_empty();
+					let p = self.pairs.get_mut(&h).unwrap();
+					if p.learned.is_none() {
+						p.learned = Some((at, "chain"));
+						p.async_pending_at_learn = inflight;
+						self.stats.learned_chain += 1;
+					}
+				} else if rec.chan == up_chan && self.b_broadcast.contains(&txid) {
+					let p = self.pairs.get_mut(&h).unwrap();
+					if p.up_claim_onchain.is_none() {
+						p.up_claim_onchain = Some(at);
+						self.stats.up_fulfilled_chain += 1;
+					}
+				}
+			}
+		}
+	}
+
+	fn feed_model(&mut self, sim: &Sim, from: usize, wire: &Wire) {
+		let Some(cid) = wire.channel_id() else { return };
+		let Some(chan) = chan_of(sim, &cid) else { return };
+		let side = side_of(sim, chan, from);
+		let r: Result<(), String> = match wire {
+			Wire::Add(m) => {
+				self.models[chan].on_update(side, Upd::Add { id: m.htlc_id, amt_msat: m.amount_msat, hash: m.payment_hash.0, cltv: m.cltv_expiry });
+				Ok(())
+			},
+			Wire::Fulfill(m) => {
+				self.models[chan].on_update(side, Upd::Fulfill { id: m.htlc_id });
+				Ok(())
+			},
+			Wire::Fail(m) => {
+				self.models[chan].on_update(side, Upd::Fail { id: m.htlc_id });
+				Ok(())
+			},
+			Wire::FailMalformed(m) => {
+				self.models[chan].on_update(side, Upd::Fail { id: m.htlc_id });
+				Ok(())
+			},
+			Wire::Fee(m) => {
+				self.models[chan].on_update(side, Upd::Fee { rate: m.feerate_per_kw });
+				Ok(())
+			},
+			Wire::Commit(_) => {
+				let pend = self.pending_number.remove(&(chan, side));
+				let number = pend.as_ref().map(|p| p.0).or(self.models[chan].sides[side].cs.last().map(|c| c.number));
+				match number {
+					None => Err("commitment_signed without an observed signature".to_string()),
+					Some(number) => match self.models[chan].on_commit(side, number) {
+						Err(e) => Err(e),
+						Ok(false) => Ok(()),
+						Ok(true) => {
+							let acked = Self::acked_by(&self.models[chan], side);
+							self.acked_at_cs.entry((chan, side)).or_default().push(acked);
+							if let Some((_, txid, nondust, to_b, to_c)) = pend {
+								match self.models[chan].expected_for(1 - side) {
+									Ok(exp) => {
+										self.commits.insert(txid, CommitRec { chan, broadcaster: 1 - side, nondust, dust: exp.dust, to_broadcaster_sat: to_b, to_countersignatory_sat: to_c });
+										Ok(())
+									},
+									Err(e) => Err(e),
+								}
+							} else {
+								Err("new commitment_signed without a fresh signature".to_string())
+							}
+						},
+					},
+				}
+			},
+			Wire::Revoke(m) => self.models[chan].on_revoke(side, m.per_commitment_secret).map(|_| ()),
+			_ => Ok(()),
+		};
+		if let Err(e) = r {
+			if self.model_error.is_none() {
+				self.model_error = Some(format!("chan {} node {}: {}", chan, from, e));
+			}
+		}
+	}
+
+	fn on_emit(&mut self, sim: &Sim, at: u64, from: usize, _to: usize, wire: &Wire) -> CaseResult {
+		self.feed_model(sim, from, wire);
+		if from != B {
+			return Ok(());
+		}
+		let Some(chan) = wire.channel_id().and_then(|c| chan_of(sim, &c)) else { return Ok(()) };
+		match wire {
+			Wire::Add(m) => {
+				let hash = m.payment_hash.0;
+				let Some(p) = self.pairs.get(&hash).cloned() else {
+					// B is never a payer in this profile
+					return Err(fail("add-without-upstream", format!("B sent update_add_htlc (chan {}, id {}, {} msat) for a payment hash it never received an HTLC for", chan, m.htlc_id, m.amount_msat)));
+				};
+				if let Some(d) = &p.down {
+					if d.chan == chan && d.id == m.htlc_id {
+						return Ok(()); // retransmission
+					}
+					return Err(fail(
+						"double-forward",
+						format!("B forwarded the HTLC received on chan {} (id {}) twice: first as chan {} id {}, now as chan {} id {}", p.up_chan, p.up_id, d.chan, d.id, chan, m.htlc_id),
+					));
+				}
+				if chan == p.up_chan {
+					return Err(fail("forward-to-origin", format!("B forwarded an HTLC back over the channel it arrived on (chan {})", chan)));
+				}
+				// (a) admission, evaluated on the message B actually sent
+				self.stats.admission_checks += 1;
+				self.stats.forwarded += 1;
+				let (base, ppm, delta) = self.policy[chan].ok_or_else(|| fail("harness", "no policy for B's outgoing channel".into()))?;
+				let ctx = format!(
+					"in: chan {} id {} {} msat expiry {}; out: chan {} id {} {} msat expiry {}; policy base {} ppm {} delta {}",
+					p.up_chan, p.up_id, p.amt_in, p.cltv_in, chan, m.htlc_id, m.amount_msat, m.cltv_expiry, base, ppm, delta
+				);
+				let need_fee = base as u128 + (m.amount_msat as u128 * ppm as u128) / 1_000_000;
+				if (p.amt_in as u128) < m.amount_msat as u128 + need_fee {
+					return Err(fail("admission-fee", format!("B forwarded for less than its advertised fee ({} msat needed): {}", need_fee, ctx)).with_key("admission-fee"));
+				}
+				if (p.cltv_in as u64) < m.cltv_expiry as u64 + delta as u64 {
+					return Err(fail("admission-cltv-delta", format!("B forwarded with less than its advertised cltv_expiry_delta: {}", ctx)).with_key("admission-cltv-delta"));
+				}
+				// the outgoing expiry must be more than LATENCY_GRACE_PERIOD_BLOCKS beyond the next block height at
+				// the time B decided; B's height when the HTLC became irrevocably committed upstream is a lower bound
+				let h_lo = p.h_commit.unwrap_or(p.h_in);
+				if m.cltv_expiry <= h_lo + 1 + LATENCY_GRACE_PERIOD_BLOCKS {
+					return Err(fail(
+						"admission-expiry-buffer",
+						format!("B forwarded an HTLC whose outgoing expiry {} is within {} blocks of the next height (B was at height {} or later when it decided): {}", m.cltv_expiry, LATENCY_GRACE_PERIOD_BLOCKS, h_lo, ctx),
+					)
+					.with_key("admission-expiry-buffer"));
+				}
+				let min = peer_htlc_minimum(sim, chan, B);
+				let maxf = peer_max_in_flight(sim, chan, B);
+				if m.amount_msat < min || m.amount_msat > maxf {
+					return Err(fail("admission-amount", format!("B forwarded an amount outside the next hop's announced limits [{}, {}]: {}", min, maxf, ctx)).with_key("admission-amount"));
+				}
+				let fee_slack = p.amt_in as u128 - (m.amount_msat as u128 + need_fee);
+				self.stats.fee_edge[if fee_slack == 0 { 0 } else if fee_slack == 1 { 1 } else { 2 }] += 1;
+				let delta_slack = p.cltv_in as u64 - (m.cltv_expiry as u64 + delta as u64);
+				self.stats.delta_edge[if delta_slack == 0 { 0 } else if delta_slack == 1 { 1 } else { 2 }] += 1;
+				let p = self.pairs.get_mut(&hash).unwrap();
+				p.down = Some(Down { chan, id: m.htlc_id, amt_out: m.amount_msat, cltv_out: m.cltv_expiry, t_emit: at, delivered: false });
+			},
+			Wire::Fulfill(m) => {
+				let preimage_hash = sha256::Hash::hash(&m.payment_preimage.0).to_byte_array();
+				if let Some(p) = self.pair_by_up(chan, m.htlc_id) {
+					if p.hash != preimage_hash {
+						return Err(fail("upstream-fulfil-wrong-preimage", format!("B fulfilled upstream HTLC chan {} id {} with a preimage of a different payment", chan, m.htlc_id)));
+					}
+					if p.up_fulfill_emit.is_none() {
+						p.up_fulfill_emit = Some(at);
+					}
+				}
+			},
+			Wire::Fail(_) | Wire::FailMalformed(_) => {
+				let id = match wire {
+					Wire::Fail(m) => m.htlc_id,
+					Wire::FailMalformed(m) => m.htlc_id,
+					_ => unreachable!(),
+				};
+				let Some(p) = self.pair_by_up(chan, id).map(|p| p.clone()) else { return Ok(()) };
+				let first = p.up_fail_emit.is_none();
+				self.pairs.get_mut(&p.hash).unwrap().up_fail_emit.get_or_insert(at);
+				if let Some((t, how)) = p.learned {
+					return Err(fail(
+						"failed-upstream-with-preimage",
+						format!("B sent update_fail_htlc upstream (chan {} id {}) at step {} although it had learned the preimage from downstream ({}) at step {}", chan, id, at, how, t),
+					)
+					.with_key("failed-upstream-with-preimage"));
+				}
+				let Some(d) = &p.down else {
+					if first {
+						self.stats.refused_forwards += 1;
+					}
+					return Ok(());
+				};
+				// (c) fail-only-when-safe
+				if self.down_irrevocably_failed(sim, d) {
+					if first {
+						self.stats.up_failed_after_offchain_removal += 1;
+					}
+					return Ok(());
+				}
+				match self.down_unclaimable_onchain(sim, &p.hash, d) {
+					Some(true) => {
+						if first {
+							self.stats.up_failed_after_onchain += 1;
+						}
+					},
+					None => {
+						if self.model_error.is_none() {
+							self.model_error = Some("unknown downstream commitment confirmed".into());
+						}
+					},
+					Some(false) => {
+						if self.model_error.is_some() {
+							return Ok(());
+						}
+						if std::env::var("VERIF_C02_SOFT_C").is_ok() {
+							return Ok(());
+						}
+						let onchain = self.spent.get(&funding_outpoint(sim, d.chan)).map(|(t, h)| format!("downstream funding spent by {} at height {} (now {})", t, h, self.height)).unwrap_or("downstream channel not on chain".into());
+						return Err(fail(
+							"failed-upstream-while-downstream-claimable",
+							format!(
+								"B sent update_fail_htlc upstream (chan {} id {}) at step {} while the downstream HTLC (chan {} id {}, sent at step {}, delivered: {}) could still be claimed by the next hop: it was not irrevocably removed by a failure (next hop's update_fail covered by its commitment_signed, acknowledged by B, B's new commitment_signed revoked-and-acked) and {}; B restarted from a manager snapshot older than the forward (monitors newer): {}",
+								chan, id, at, d.chan, d.id, d.t_emit, d.delivered, onchain, p.stale_restart
+							),
+						)
+						.with_key(if p.stale_restart { "failed-upstream-while-downstream-claimable/manager-snapshot-predates-forward" } else { "failed-upstream-while-downstream-claimable" }));
+					},
+				}
+			},
+			_ => {},
+		}
+		Ok(())
+	}
+
+	fn on_deliver(&mut self, sim: &Sim, at: u64, from: usize, to: usize, wire: &Wire) -> CaseResult {
+		let Some(chan) = wire.channel_id().and_then(|c| chan_of(sim, &c)) else { return Ok(()) };
+		if from == B {
+			match wire {
+				Wire::Add(m) => {
+					if let Some(p) = self.pair_by_down(chan, m.htlc_id) {
+						p.down.as_mut().unwrap().delivered = true;
+					}
+				},
+				Wire::Fulfill(m) => {
+					if let Some(p) = self.pair_by_up(chan, m.htlc_id) {
+						if p.up_fulfill_delivered.is_none() {
+							p.up_fulfill_delivered = Some(at);
+							self.stats.up_fulfilled_msg += 1;
+						}
+					}
+				},
+				_ => {},
+			}
+			return Ok(());
+		}
+		if to != B {
+			return Ok(());
+		}
+		match wire {
+			Wire::Add(m) => {
+				let hash = m.payment_hash.0;
+				let is_forward = sim.pays.iter().find(|p| p.hash.0 == hash).map(|p| p.path_nodes.iter().position(|n| *n == B).map(|i| i > 0 && i + 1 < p.path_nodes.len()).unwrap_or(false)).unwrap_or(false);
+				let bh = self.b_height;
+				match self.pairs.get_mut(&hash) {
+					Some(p) => {
+						// retransmission after a reconnect (the first copy was never committed)
+						if p.up_chan == chan && p.up_id == m.htlc_id && p.down.is_none() {
+							p.t_in = at;
+							p.h_in = bh;
+							p.h_commit = None;
+						}
+					},
+					None => {
+						self.stats.pairs += 1;
+						self.pairs.insert(
+							hash,
+							Pair {
+								hash,
+								up_chan: chan,
+								up_id: m.htlc_id,
+								amt_in: m.amount_msat,
+								cltv_in: m.cltv_expiry,
+								t_in: at,
+								h_in: bh,
+								h_commit: None,
+								is_forward,
+								down: None,
+								learned: None,
+								up_fulfill_emit: None,
+								up_fulfill_delivered: None,
+								up_fail_emit: None,
+								up_claim_onchain: None,
+								handling_failed_seen: false,
+								forwarded_event: false,
+								async_pending_at_learn: false,
+								disconnect_in_window: false,
+								restart_in_window: false,
+								restarts_after_in: 0,
+								stale_restart: false,
+							},
+						);
+					},
+				}
+			},
+			Wire::Revoke(m) => {
+				self.revokes_at_b.entry(chan).or_default().insert(m.per_commitment_secret);
+				let bh = self.b_height;
+				for p in self.pairs.values_mut() {
+					if p.up_chan == chan && p.h_commit.is_none() && p.down.is_none() {
+						p.h_commit = Some(bh);
+					}
+				}
+			},
+			Wire::Fulfill(m) => {
+				let open = self.fulfil_marker.take().unwrap_or(true);
+				let inflight = !self.b_inflight.is_empty();
+				let preimage_hash = sha256::Hash::hash(&m.payment_preimage.0).to_byte_array();
+				let mut newly = false;
+				if let Some(p) = self.pair_by_down(chan, m.htlc_id) {
+					if p.hash == preimage_hash && open && p.learned.is_none() {
+						p.learned = Some((at, "message"));
+						p.async_pending_at_learn = inflight;
+						newly = true;
+					}
+				}
+				if newly {
+					self.stats.learned_msg += 1;
+				}
+			},
+			_ => {},
+		}
+		Ok(())
+	}
+
+	fn on_b_event(&mut self, sim: &Sim, ev: &Event) -> CaseResult {
+		match ev {
+			Event::PaymentForwarded { prev_htlcs, next_htlcs, total_fee_earned_msat, claim_from_onchain_tx, outbound_amount_forwarded_msat, skimmed_fee_msat } => {
+				let Some(prev) = prev_htlcs.first() else { return Ok(()) };
+				let Some(up) = chan_of(sim, &prev.channel_id) else { return Ok(()) };
+				let Some(id) = prev.htlc_id else { return Ok(()) };
+				let Some(p) = self.pair_by_up(up, id).map(|p| p.clone()) else {
+					return Err(fail("forwarded-event-unknown-htlc", format!("PaymentForwarded names upstream HTLC chan {} id {} which B never received", up, id)));
+				};
+				self.pairs.get_mut(&p.hash).unwrap().forwarded_event = true;
+				let Some(d) = &p.down else {
+					return Err(fail("forwarded-event-without-forward", format!("PaymentForwarded for upstream HTLC chan {} id {} which B never forwarded", up, id)));
+				};
+				if p.learned.is_none() {
+					return Err(fail("forwarded-event-without-preimage", format!("PaymentForwarded for upstream HTLC chan {} id {} although the next hop never revealed the preimage (neither by message on an open channel nor on chain)", up, id)));
+				}
+				if let Some(next) = next_htlcs.first() {
+					if chan_of(sim, &next.channel_id) != Some(d.chan) {
+						return Err(fail("forwarded-event-wrong-channel", format!("PaymentForwarded names downstream channel {:?} but the HTLC left over chan {}", chan_of(sim, &next.channel_id), d.chan)));
+					}
+				}
+				if let Some(fee) = total_fee_earned_msat {
+					self.stats.fee_events_checked += 1;
+					let real = p.amt_in - d.amt_out;
+					let skim = skimmed_fee_msat.unwrap_or(0);
+					// documented: when the next hop claimed on chain the amount it took was rounded down to a whole
+					// satoshi, so the reported fee may exceed the msat difference by less than one satoshi
+					let ok = if *claim_from_onchain_tx { *fee >= real && *fee < real + 1000 } else { *fee == real };
+					if !ok || skim != 0 {
+						return Err(fail(
+							"forwarded-fee-mismatch",
+							format!("PaymentForwarded reports total_fee_earned_msat {} (skimmed {}, from_onchain {}, outbound_amount {}) but the HTLC pair is {} msat in / {} msat out = {}", fee, skim, claim_from_onchain_tx, outbound_amount_forwarded_msat, p.amt_in, d.amt_out, real),
+						)
+						.with_key("forwarded-fee-mismatch"));
+					}
+					if !*claim_from_onchain_tx && *outbound_amount_forwarded_msat != d.amt_out {
+						return Err(fail("forwarded-fee-mismatch", format!("PaymentForwarded reports outbound amount {} but {} msat left B", outbound_amount_forwarded_msat, d.amt_out)).with_key("forwarded-amount-mismatch"));
+					}
+				}
+			},
+			Event::HTLCHandlingFailed { prev_channel_ids, .. } => {
+				for c in prev_channel_ids {
+					if let Some(ci) = chan_of(sim, c) {
+						*self.handling_failed.entry(ci).or_insert(0) += 1;
+					}
+				}
+			},
+			Event::SpendableOutputs { outputs, channel_id, .. } => {
+				for o in outputs {
+					let (op, val) = match o {
+						SpendableOutputDescriptor::StaticOutput { outpoint, output, .. } => (outpoint.clone(), output.value.to_sat()),
+						SpendableOutputDescriptor::DelayedPaymentOutput(d) => (d.outpoint.clone(), d.output.value.to_sat()),
+						SpendableOutputDescriptor::StaticPaymentOutput(d) => (d.outpoint.clone(), d.output.value.to_sat()),
+					};
+					let op = OutPoint { txid: op.txid, vout: op.index as u32 };
+					if let Some(cid) = channel_id {
+						self.spendable.insert(op, (*cid, val));
+					}
+				}
+			},
+			_ => {},
+		}
+		Ok(())
+	}
+
+	/// Checks at final quiescence: (a) refused forwards were failed back and reported, (b) every HTLC whose
+	/// preimage B learned ended fulfilled upstream, (e) the ledger.
+	pub fn finish(&mut self, sim: &Sim, spec: &WorldSpec) -> CaseResult {
+		if self.model_error.is_some() {
+			self.stats.ledger = "skipped:model";
+			return Ok(());
+		}
+		let b_open: BTreeSet<usize> = sim.w.nodes[B].node.list_channels().iter().filter_map(|c| chan_of(sim, &c.channel_id)).collect();
+		let pairs: Vec<Pair> = self.pairs.values().cloned().collect();
+		for p in pairs.iter() {
+			let up_t = self.spent.get(&funding_outpoint(sim, p.up_chan)).cloned();
+			let m = &self.models[p.up_chan];
+			let sb = side_of(sim, p.up_chan, B);
+			let fulfilled_offchain = m.sides[sb].updates.contains(&Upd::Fulfill { id: p.up_id });
+			let failed_offchain = m.sides[sb].updates.contains(&Upd::Fail { id: p.up_id });
+			if let Some((t_learn, how)) = p.learned {
+				// (b) claim-follows-knowledge
+				let d = p.down.as_ref().unwrap();
+				let ctx = format!(
+					"upstream HTLC chan {} id {} ({} msat, expiry {}), downstream chan {} id {} ({} msat, expiry {}), preimage learned by {} at step {}",
+					p.up_chan, p.up_id, p.amt_in, p.cltv_in, d.chan, d.id, d.amt_out, d.cltv_out, how, t_learn
+				);
+				match up_t {
+					None => {
+						if !(fulfilled_offchain && b_open.contains(&p.up_chan)) {
+							return Err(fail("claim-follows-knowledge", format!("at final quiescence the upstream HTLC is not fulfilled although B knows the preimage (upstream channel open at B: {}, B's update_fulfill_htlc committed: {}, update_fail_htlc: {}): {}", b_open.contains(&p.up_chan), fulfilled_offchain, failed_offchain, ctx))
+								.with_key("claim-follows-knowledge/offchain"));
+						}
+					},
+					Some((t, h_t)) => {
+						let Some(rec) = self.commits.get(&t) else {
+							self.stats.ledger = "skipped:unknown-commitment";
+							return Ok(());
+						};
+						// offered by the upstream peer = not offered by B
+						let by_peer = |off: bool| off != (rec.broadcaster == sb);
+						if let Some((_, _, _, idx)) = rec.nondust.iter().find(|(h, _, off, _)| *h == p.hash && by_peer(*off)) {
+							let op = OutPoint { txid: t, vout: *idx };
+							match self.spent.get(&op) {
+								Some((stx, h_s)) => {
+									let with_preimage = sim.chain.seen.get(stx).map(|tx| input_has_preimage(tx, &op, &p.hash)).unwrap_or(false);
+									if !with_preimage {
+										return Err(fail(
+											"claim-follows-knowledge",
+											format!("the upstream HTLC output {}:{} (commitment confirmed at height {}) was taken back by the previous hop through {} at height {} although B knew the preimage: {}", t, idx, h_t, stx, h_s, ctx),
+										)
+										.with_key("claim-follows-knowledge/onchain-timeout"));
+									}
+								},
+								None => {
+									return Err(fail("claim-follows-knowledge", format!("at final quiescence (height {}) the upstream HTLC output {}:{} is still unspent although B knows the preimage: {}", self.height, t, idx, ctx)).with_key("claim-follows-knowledge/onchain-unclaimed"));
+								},
+							}
+						} else if rec.dust.iter().any(|h| h.hash == p.hash) {
+							// too small for an output: forfeited to fees by the on-chain close (allowed by the property)
+							self.stats.dust_forfeits += 1;
+						} else if !fulfilled_offchain {
+							return Err(fail("claim-follows-knowledge", format!("the confirmed upstream commitment {} has no HTLC for this payment and B never fulfilled it off chain: {}", t, ctx)).with_key("claim-follows-knowledge/onchain-missing"));
+						}
+					},
+				}
+			} else if p.is_forward && p.down.is_none() && up_t.is_none() && b_open.contains(&p.up_chan) {
+				// (a) otherwise-branch: an HTLC B did not forward must be failed back once it is irrevocably committed
+				if p.h_commit.is_some() && !failed_offchain {
+					let still_pending = sim.chan_details(B, p.up_chan).map(|d| d.pending_inbound_htlcs.iter().any(|h| h.htlc_id == p.up_id)).unwrap_or(false);
+					if still_pending {
+						return Err(fail("refused-forward-not-failed", format!("at final quiescence the HTLC chan {} id {} which B neither forwarded nor failed is still pending", p.up_chan, p.up_id)).with_key("refused-forward-not-failed"));
+					}
+				}
+			}
+		}
+		// (a) every refused forward is reported through HTLCHandlingFailed (count rule per upstream channel; only
+		// without restarts of B, which may lose or repeat events of a timeline that was rolled back)
+		if self.stats.restarts_b == 0 {
+			let mut need: BTreeMap<usize, u64> = BTreeMap::new();
+			for p in pairs.iter() {
+				if p.is_forward && p.up_fail_emit.is_some() {
+					*need.entry(p.up_chan).or_insert(0) += 1;
+				}
+			}
+			for (c, n) in need {
+				let got = self.handling_failed.get(&c).cloned().unwrap_or(0);
+				if got < n {
+					return Err(fail("handling-failed-missing", format!("B failed {} forwarded HTLCs back over chan {} but emitted only {} HTLCHandlingFailed events naming it", n, c, got)).with_key("handling-failed-missing"));
+				}
+			}
+		}
+		self.ledger(sim, spec, &b_open)
+	}
+
+	/// (e) B's total over all its channels at final quiescence is not below its starting value.
+	fn ledger(&mut self, sim: &Sim, spec: &WorldSpec, b_open: &BTreeSet<usize>) -> CaseResult {
+		let start: u64 = self.start_msat.iter().sum();
+		let mut end: u128 = 0;
+		let mut allowance: u128 = 0;
+		let mut detail = vec![];
+		let mut all_open = true;
+		let wallet_spk = lightning::util::wallet_utils::WalletSourceSync::get_change_script(&*sim.w.nodes[B].wallet_source).ok();
+		let limit = match spec.dust_exposure_fixed_msat {
+			Some(x) => x,
+			None => spec.dust_exposure_multiplier.saturating_mul(if spec.ctype == CType::ZeroFee { 250 } else { spec.feerate.max(253) as u64 }),
+		};
+		for ci in b_chans(sim) {
+			let c = &sim.chans[ci];
+			let sb = side_of(sim, ci, B);
+			match self.spent.get(&funding_outpoint(sim, ci)).cloned() {
+				None => {
+					if !b_open.contains(&ci) {
+						self.stats.ledger = "skipped:closed-unconfirmed";
+						return Ok(());
+					}
+					let exp = match self.models[ci].fully_applied(sb) {
+						Ok(e) => e,
+						Err(_) => {
+							self.stats.ledger = "skipped:model";
+							return Ok(());
+						},
+					};
+					if !exp.nondust.is_empty() || !exp.dust.is_empty() || !self.models[ci].sides[0].batch.is_empty() || !self.models[ci].sides[1].batch.is_empty() {
+						self.stats.ledger = "skipped:htlcs-pending";
+						return Ok(());
+					}
+					end += exp.balance_msat[0] as u128;
+					detail.push(format!("chan {} open: {} msat (start {})", ci, exp.balance_msat[0], self.start_msat[ci]));
+				},
+				Some((t, _)) => {
+					all_open = false;
+					self.stats.chans_onchain += 1;
+					let Some(rec) = self.commits.get(&t).cloned() else {
+						self.stats.ledger = "skipped:unknown-commitment";
+						return Ok(());
+					};
+					let Some(ttx) = sim.chain.seen.get(&t) else { continue };
+					// what B's monitor still reports as on its way + what it already handed over as spendable
+					let mut reported = 0u64;
+					if let Ok(mon) = sim.w.nodes[B].chain_monitor.chain_monitor.get_monitor(c.id) {
+						for b in mon.get_claimable_balances() {
+							match b {
+								Balance::ClaimableAwaitingConfirmations { amount_satoshis, .. } => reported += amount_satoshis,
+								_ => {
+									self.stats.ledger = "skipped:onchain-unresolved";
+									return Ok(());
+								},
+							}
+						}
+					}
+					// outputs descending from the commitment transaction
+					let mut desc: BTreeSet<Txid> = BTreeSet::new();
+					desc.insert(t);
+					let mut grew = true;
+					while grew {
+						grew = false;
+						for (op, (stx, _)) in self.spent.iter() {
+							if desc.contains(&op.txid) && !desc.contains(stx) {
+								desc.insert(*stx);
+								grew = true;
+							}
+						}
+					}
+					let spendable: u64 = self.spendable.iter().filter(|(op, (cid, _))| *cid == c.id && desc.contains(&op.txid)).map(|(_, (_, v))| *v).sum();
+					// fees B paid out of channel funds (or swept into its own wallet) in confirmed claim transactions;
+					// anchor outputs are accounted with the commitment transaction's cost below
+					let htlc_idx: BTreeSet<u32> = rec.nondust.iter().map(|x| x.3).collect();
+					let is_anchor = |op: &OutPoint| op.txid == t && !htlc_idx.contains(&op.vout) && ttx.output.get(op.vout as usize).map(|o| o.value.to_sat() <= ANCHOR_SAT).unwrap_or(false);
+					let mut fees = 0u64;
+					for txid in desc.iter() {
+						if *txid == t || !self.b_broadcast.contains(txid) {
+							continue;
+						}
+						let Some(tx) = sim.chain.seen.get(txid) else { continue };
+						let mut inp = 0u64;
+						for i in tx.input.iter() {
+							if desc.contains(&i.previous_output.txid) && !is_anchor(&i.previous_output) {
+								if let Some(ptx) = sim.chain.seen.get(&i.previous_output.txid) {
+									inp += ptx.output[i.previous_output.vout as usize].value.to_sat();
+								}
+							}
+						}
+						let out: u64 = tx.output.iter().filter(|o| Some(&o.script_pubkey) != wallet_spk.as_ref()).map(|o| o.value.to_sat()).sum();
+						fees += inp.saturating_sub(out);
+					}
+					// the commitment transaction's own cost (fee, anchors, trimmed HTLCs, msat remainders) is the funder's
+					let htlc_sat: u64 = rec.nondust.iter().map(|x| x.1 / 1000).sum();
+					let commit_cost = c.value_sat.saturating_sub(rec.to_broadcaster_sat + rec.to_countersignatory_sat + htlc_sat);
+					let mut v = reported + spendable + fees;
+					if sb == 0 {
+						v += commit_cost;
+					} else {
+						// documented roundings borne by the non-funder: its balance and every HTLC it claims are rounded
+						// down to whole satoshis, and trimmed HTLCs it has a stake in go to fees
+						allowance += 1000 * (1 + rec.nondust.len() as u128);
+						allowance += rec.dust.iter().map(|h| h.amt_msat as u128).sum::<u128>();
+					}
+					let mine = if rec.broadcaster == sb { rec.to_broadcaster_sat } else { rec.to_countersignatory_sat };
+					if mine == 0 {
+						// B's own balance was below the dust limit and has no output
+						allowance += 1000 * c.open.common_fields.dust_limit_satoshis.max(c.accept.common_fields.dust_limit_satoshis) as u128;
+					}
+					end += v as u128 * 1000;
+					detail.push(format!("chan {} on chain via {}: monitor reports {} sat, spendable {} sat, claim fees {} sat, commitment cost {} sat (B funder: {}) (start {} msat)", ci, t, reported, spendable, fees, commit_cost, sb == 0, self.start_msat[ci]));
+					// dust HTLCs B had a stake in stay within its configured exposure limit
+					let stake: u64 = rec
+						.dust
+						.iter()
+						.filter(|h| {
+							let offered_by_b = h.offered == (rec.broadcaster == sb);
+							offered_by_b || self.pairs.get(&h.hash).map(|p| p.learned.is_some()).unwrap_or(false)
+						})
+						.map(|h| h.amt_msat)
+						.sum();
+					if stake > limit {
+						return Err(fail("dust-exposure", format!("trimmed HTLCs worth {} msat in which B had a stake were on the confirmed commitment {} of chan {}, above B's max_dust_htlc_exposure of {} msat", stake, t, ci, limit)).with_key("dust-exposure"));
+					}
+				},
+			}
+		}
+		if end + allowance < start as u128 {
+			return Err(fail(
+				"ledger",
+				format!("B's total over its channels fell from {} msat to {} msat (allowance for trimmed HTLCs / satoshi rounding on closed channels: {} msat). {}", start, end, allowance, detail.join("; ")),
+			)
+			.with_key(if all_open { "ledger/offchain" } else { "ledger/onchain" }));
+		}
+		if all_open {
+			// the monitors' own reports agree: with no HTLC pending and an unchanged feerate the reported
+			// ClaimableOnChannelClose amount is the whole-satoshi balance less a constant (commitment fee and
+			// anchors if B funds the channel), unless the balance is too small for an output (reported as 0)
+			for ci in b_chans(sim) {
+				let (Some(a), Some(b)) = (self.start_reported_sat[ci], reported_open_sat(sim, ci)) else { continue };
+				if a == 0 || b == 0 {
+					continue;
+				}
+				let m_end = self.models[ci].fully_applied(side_of(sim, ci, B)).map(|e| e.balance_msat[0]).unwrap_or(0);
+				let model_delta = (m_end / 1000) as i64 - (self.start_msat[ci] / 1000) as i64;
+				if b as i64 - a as i64 != model_delta {
+					return Err(fail("ledger", format!("get_claimable_balances of chan {} went from {} sat to {} sat but the wire messages moved B's balance by {} sat. {}", ci, a, b, model_delta, detail.join("; "))).with_key("ledger/reported"));
+				}
+			}
+			self.stats.ledger = "checked:offchain";
+		} else {
+			self.stats.ledger = "checked:onchain";
+		}
+		Ok(())
+	}
+
+	/// Pairs whose downstream side was fulfilled, by kind of disturbance between B learning the preimage and
+	/// the upstream resolution: [any, async update in flight at B when it learned, disconnect, restart, on chain]
+	pub fn disturbed_fulfilled(&self, sim: &Sim) -> [u64; 5] {
+		let mut n = [0u64; 5];
+		for p in self.pairs.values() {
+			if p.learned.is_none() {
+				continue;
+			}
+			let d = p.down.as_ref().unwrap();
+			let onchain = self.spent.contains_key(&funding_outpoint(sim, d.chan)) || self.spent.contains_key(&funding_outpoint(sim, p.up_chan));
+			let kinds = [p.async_pending_at_learn, p.disconnect_in_window, p.restart_in_window, onchain];
+			if kinds.iter().any(|k| *k) {
+				n[0] += 1;
+			}
+			for (i, k) in kinds.iter().enumerate() {
+				if *k {
+					n[i + 1] += 1;
+				}
+			}
+		}
+		n
+	}
+}
